@@ -61,6 +61,12 @@ class Fn:
             if isinstance(n,(ast.ListComp,ast.GeneratorExp,ast.SetComp,ast.DictComp)): pass
         self.vars=self.params+loc
         self.is_method = cls is not None and self.params and self.params[0] in ("self",)
+        # a method that calls .write(...) on a parameter (a file-like object modelled as the list of strings written): that parameter is returned too
+        self.thread2=None
+        if getattr(mod,"io_lists",False) and cls is not None:
+            for n in ast.walk(fn):
+                if (isinstance(n,ast.Call) and isinstance(n.func,ast.Attribute) and n.func.attr=="write" and isinstance(n.func.value,ast.Name)
+                        and n.func.value.id in self.params): self.thread2=n.func.value.id
         # a module-level function that writes into one of its parameters (lookup[k] = v): the parameter is threaded like self
         self.thread=None
         if cls is None:
@@ -251,6 +257,32 @@ class Fn:
                 fv=self.ex(f,binds); args=[self.ex(a,binds) for a in e.args]; t=self.tmp()
                 binds.append("%s <- py_call %s (VList [%s]) ;; "%(t,fv,";".join(args))); return t
             raise Unsupported("abstract method call "+f.attr)
+        # a function imported from a module that has its own generated unit (replace_matching_item in anonymize_files.py -> G_fn_sir2)
+        if isinstance(f,ast.Name) and f.id in getattr(self.mod,"xfuncs",{}):
+            xm,coqmod=self.mod.xfuncs[f.id]; callee=xm.funcs[f.id]
+            args=self.resolve_args(callee,e,binds,False)
+            th=Fn(xm,None,callee).thread
+            t=self.tmp(); binds.append("%s <- %s.%s py_call fuel %s ;; "%(t,coqmod,gname(None,f.id)," ".join(args)))
+            if th:
+                k=[x.arg for x in callee.args.args].index(th); r=self.tmp(); o=self.tmp()
+                binds.append("p_ <- unpack2 %s ;; let '(%s, %s) := p_ in "%(t,r,o)); binds.append(self.store(e.args[k],o)); return r
+            return t
+        # an uninterpreted function that updates the object it is given (anonymize_ip_addr(anonymizer, line, undo)): it answers (result, updated object)
+        if isinstance(f,ast.Name) and f.id in getattr(self.mod,"thread_oracles",{}):
+            k=self.mod.thread_oracles[f.id]
+            pos="(VList [%s])"%";".join(self.ex(a,binds) for a in e.args)
+            t=self.tmp(); r=self.tmp(); o=self.tmp()
+            binds.append("%s <- py_call (VFun (of_string %s)) %s ;; p_ <- unpack2 %s ;; let '(%s, %s) := p_ in "%(t,cq(f.id),pos,t,r,o)); binds.append(self.store(e.args[k],o)); return r
+        # self.<field>.<method>(...) on an object of another class, uninterpreted, answering (result, updated object)
+        if (isinstance(f,ast.Attribute) and f.attr in getattr(self.mod,"method_thread_oracles",()) and isinstance(f.value,ast.Attribute) and isinstance(f.value.value,ast.Name)
+                and f.value.value.id=="self" and not e.keywords):
+            obj=self.ex(f.value,binds); args=[self.ex(a,binds) for a in e.args]
+            t=self.tmp(); r=self.tmp(); o=self.tmp()
+            binds.append("%s <- py_call (VFun (of_string %s)) (VList [%s]) ;; p_ <- unpack2 %s ;; let '(%s, %s) := p_ in "%(t,cq(f.value.attr+"."+f.attr),";".join([obj]+args),t,r,o))
+            binds.append(self.store(f.value,o)); return r
+        # file-like parameters modelled as lists of strings
+        if getattr(self.mod,"io_lists",False) and isinstance(f,ast.Attribute) and f.attr=="readlines" and not e.args and isinstance(f.value,ast.Name) and f.value.id in self.vars:
+            return self.ex(f.value,binds)
         # module function / class constructor
         if isinstance(f,ast.Name) and f.id in self.mod.funcs:
             callee=self.mod.funcs[f.id]; args=self.resolve_args(callee,e,binds,False); self.calls.add((None,f.id))
@@ -382,6 +414,7 @@ class Fn:
     # ---- statements -------------------------------------------------------
     def ret(self,atom):
         if self.thread: return "Ret (VTuple [%s; v_%s])"%(atom,self.thread)
+        if self.thread2: return "Ret (VTuple [%s; v_self; v_%s])"%(atom,self.thread2)
         return "Ret (VTuple [%s; v_self])"%atom if self.is_method else "Ret %s"%atom
     def block(self, stmts, ind):
         sp="  "*ind
@@ -425,6 +458,10 @@ class Fn:
             op="py_list_append v_%s %s"%(v,args[0]) if s.value.func.attr=="append" and len(args)==1 else ("py_list_insert v_%s %s %s"%(v,args[0],args[1]) if len(args)==2 else None)
             if op is None: raise Unsupported("list method arity")
             return sp+"".join(b)+"%s <- %s ;; let v_%s := %s in\n"%(t,op,v,t)+self.block(rest,ind)
+        if (getattr(self.mod,"io_lists",False) and isinstance(s,ast.Expr) and isinstance(s.value,ast.Call) and isinstance(s.value.func,ast.Attribute) and s.value.func.attr=="write"
+                and isinstance(s.value.func.value,ast.Name) and s.value.func.value.id==self.thread2 and len(s.value.args)==1):
+            b=[]; a=self.ex(s.value.args[0],b); t=self.tmp(); v=self.thread2
+            return sp+"".join(b)+"%s <- py_list_append v_%s %s ;; let v_%s := %s in\n"%(t,v,a,v,t)+self.block(rest,ind)
         if isinstance(s,ast.Expr) and isinstance(s.value,ast.Call):
             c=s.value; f=c.func
             if isinstance(f,ast.Attribute) and f.attr=="extend" and isinstance(f.value,ast.Name) and f.value.id in self.vars:
@@ -439,7 +476,7 @@ class Fn:
         init="".join("let v_%s := VNone in "%v for v in self.vars if v not in self.params)
         name=gname(self.cls,self.fn.name)
         rec = (self.cls,self.fn.name) in self.calls
-        tail = "Ret (VTuple [VNone; v_self])" if self.is_method else ("Ret (VTuple [VNone; v_%s])"%self.thread if self.thread else "Ret VNone")
+        tail = ("Ret (VTuple [VNone; v_self; v_%s])"%self.thread2) if self.thread2 else "Ret (VTuple [VNone; v_self])" if self.is_method else ("Ret (VTuple [VNone; v_%s])"%self.thread if self.thread else "Ret VNone")
         core=" call (%s\n e_ <- ((\n%s) : ctl (%s)) ;; let %s := e_ in %s)"%(init,body,self.ety(),self.pat(),tail)
         if rec:
             return "Fixpoint %s (py_call : pyval -> pyval -> res) (fuel:nat) %s {struct fuel} : res :=\n match fuel with O => Exc OutOfFuel | S fuel =>\n%s\n end."%(name,ps,core)
@@ -450,12 +487,15 @@ class Fn:
         return "(* REFUSED by the translator: %s *)\nDefinition %s (py_call : pyval -> pyval -> res) (fuel:nat) %s : res := Exc Unsupported."%(reason.replace("*)","* )"),gname(self.cls,self.fn.name),ps)
 
 
-def translate_module(path, pymod, wanted=None, oracles=(), xmods=None, external=(), requires=(), method_oracles=()):
+def translate_module(path, pymod, wanted=None, oracles=(), xmods=None, external=(), requires=(), method_oracles=(), xfuncs=None, thread_oracles=None, method_thread_oracles=(), io_lists=False):
     """returns (coq text, translated names, {failed name: reason}).
     xmods: {python module name as written in the source: (python module object, Coq module holding its generated functions)};
     external: functions of this module that another generated unit already defines (named in `requires`): translated for their signature, not emitted"""
     mod=Mod(path,pymod); mod.oracles=set(oracles); mod.method_oracles=set(method_oracles)
     mod.xmods={k:(Mod(v[0].__file__,v[0]),v[1]) for k,v in (xmods or {}).items()}
+    mod.xfuncs={k:(Mod(v[0].__file__,v[0]),v[1]) for k,v in (xfuncs or {}).items()}
+    for k,(xm,cm) in mod.xfuncs.items(): xm.method_oracles=set(); xm.oracles=set()
+    mod.thread_oracles=dict(thread_oracles or {}); mod.method_thread_oracles=set(method_thread_oracles); mod.io_lists=io_lists
     out=["(* GENERATED by tools/translate.py from %s -- do not edit *)"%path,"From Coq Require Import List ZArith String.","Require Import PyLib.","Import ListNotations.","Local Open Scope Z_scope.","Local Open Scope string_scope.","",
          "(* every generated function takes py_call: the call of a function-valued field (dispatcher / oracle) *)",""]
     items=[]
@@ -493,6 +533,7 @@ def translate_module(path, pymod, wanted=None, oracles=(), xmods=None, external=
     if getattr(mod,"need_lib2",False): hdr_extra.append("Require Import PyLib2.")
     for r in requires: hdr_extra.append("Require Import %s."%r)
     for k,(xm,cm) in mod.xmods.items(): hdr_extra.append("Require %s."%cm)
+    for cm in sorted(set(v[1] for v in mod.xfuncs.values())): hdr_extra.append("Require %s."%cm)
     out[out.index("")+0:out.index("")+0]=hdr_extra
     for k,txt in stubs.items():
         out.append(txt); out.append("")
